@@ -133,6 +133,67 @@ class Skeleton:
             elif callee.endswith('::push_back') and e.get('obj') is not None and member_path(strip_casts(e['obj']))[1][-1:] == ['errors']:
                 out.append(('error',))
 
+    def is_node_ptr(self, cty):
+        return (cty or '').replace('const ', '').replace('Theo::', '').strip() in ('Node *', 'Node *const')
+
+    def classify(self, e):
+        """nullness of a Node* valued expression: 'N', 'P', 'last' (result of the grammar function called last), ('var', d) or 'U'"""
+        e = strip_casts(strip_copies(e)) if e is not None else None
+        if e is None:
+            return 'U'
+        k = e.get('k')
+        if k == 'paren':
+            return self.classify(e['e'])
+        if k == 'null' or (k == 'int' and e.get('v') == 0):
+            return 'N'
+        if k == 'new':
+            return 'P'
+        if k == 'call':
+            callee = e.get('callee') or ''
+            if callee in self.grammar_fns:
+                return 'last'
+            if callee.endswith('::mk') or callee.endswith('::matchmk'):
+                return 'P'
+        if k == 'ref' and e.get('dk') == 'var':
+            return ('var', e['d'])
+        return 'U'
+
+    def nulltest(self, c):
+        """(d, True) when c is true iff variable d is NULL, (d, False) when c is true iff it is not; None otherwise"""
+        c = strip_casts(c)
+        if c is None:
+            return None
+        k = c.get('k')
+        if k == 'paren':
+            return self.nulltest(c['e'])
+        if k == 'un' and c['op'] == '!':
+            r = self.nulltest(c['e'])
+            return None if r is None else (r[0], not r[1])
+        if k == 'ref' and c.get('dk') == 'var' and self.is_node_ptr(c.get('cty')):
+            return (c['d'], False)
+        if k == 'bin' and c['op'] in ('==', '!='):
+            l, r = strip_casts(c['l']), strip_casts(c['r'])
+            isn = lambda x: x.get('k') == 'null' or (x.get('k') == 'int' and x.get('v') == 0)
+            v = l if isn(r) else (r if isn(l) else None)
+            if v is not None and v.get('k') == 'ref' and v.get('dk') == 'var' and self.is_node_ptr(v.get('cty')):
+                return (v['d'], c['op'] == '==')
+        return None
+
+    def has_flow(self, n):
+        if n[0] in ('return', 'break', 'continue', 'bind'):
+            return True
+        if n[0] == 'seq':
+            return any(self.has_flow(x) for x in n[1])
+        if n[0] in ('if',):
+            return self.has_flow(n[3]) or self.has_flow(n[4])
+        if n[0] == 'ifnull':
+            return self.has_flow(n[2]) or self.has_flow(n[3])
+        if n[0] == 'switch':
+            return any(self.has_flow(b) for _, b in n[1])
+        if n[0] == 'loop':
+            return self.has_flow(n[2])
+        return False
+
     def lacond(self, e):
         """la_cond with look-ahead aliases / boolean look-ahead locals of the current function substituted"""
         return self.ps.la_cond(self.subst_alias(e))
@@ -183,16 +244,23 @@ class Skeleton:
         if k == 'expr':
             ev = []
             self.events(s['e'], f, ev)
+            e0 = strip_casts(s['e'])
+            if e0 is not None and e0.get('k') == 'assign' and e0.get('op') == '=':
+                tgt = strip_casts(e0['l'])
+                if tgt.get('k') == 'ref' and tgt.get('dk') == 'var' and self.is_node_ptr(tgt.get('cty')):
+                    ev.append(('bind', tgt['d'], self.classify(e0['r'])))
             return ('seq', ev)
         if k == 'decl':
             ev = []
             for v in s['vars']:
                 self.events(v.get('init'), f, ev)
+                if self.is_node_ptr(v.get('cty')):
+                    ev.append(('bind', v['d'], self.classify(v.get('init')) if v.get('init') is not None else 'U'))
             return ('seq', ev)
         if k == 'return':
             ev = []
             self.events(s.get('e'), f, ev)
-            return ('seq', ev + [('return',)])
+            return ('seq', ev + [('return', self.classify(s.get('e')))])
         if k == 'break':
             return ('break',)
         if k == 'continue':
@@ -202,9 +270,15 @@ class Skeleton:
             pre = []
             self.events(s['c'], f, pre)
             pre = [x for x in pre if x[0] != 'lookahead']
+            nt = self.nulltest(s['c']) if lc is None else None
+            if nt is not None:
+                a, b = self.stmt(s['t'], f), self.stmt(s.get('e'), f)
+                return ('seq', pre + [('ifnull', nt[0], a, b) if nt[1] else ('ifnull', nt[0], b, a)])
             if lc is None:
                 # conditions that are not about the look-ahead must not guard grammar actions
                 inner = self.stmt(s['t'], f), self.stmt(s.get('e'), f)
+                if self.has_flow(inner[0]) or self.has_flow(inner[1]):
+                    raise AnalysisBroken('parse.cpp: %s branches on %s around control flow (neither a look-ahead test nor a NULL test of a result)' % (f['q'], show(s['c'])))
                 if self.has_grammar_action(inner[0]) or self.has_grammar_action(inner[1]):
                     raise AnalysisBroken('parse.cpp: %s branches on %s around grammar actions (not a look-ahead test)' % (f['q'], show(s['c'])))
                 return ('seq', pre)
@@ -255,6 +329,8 @@ class Skeleton:
             return any(self.has_grammar_action(x) for x in n[1])
         if n[0] == 'if':
             return self.has_grammar_action(n[3]) or self.has_grammar_action(n[4])
+        if n[0] == 'ifnull':
+            return self.has_grammar_action(n[2]) or self.has_grammar_action(n[3])
         if n[0] == 'switch':
             return any(self.has_grammar_action(b) for _, b in n[1])
         if n[0] == 'loop':
@@ -267,35 +343,51 @@ class Skeleton:
         self.memo = {}
         self.budget_hits = 0
         out = set()
-        for toks, pending, flow in self.run_fn(start, n, self.ALL):
+        for toks, pending, ret in self.run_fn(start, n, self.ALL):
             if 'T_EOF' in pending:
                 out.add(toks)
         return out
 
     def run_fn(self, q, budget, pending):
+        """set of (tokens, pending after, nullness of the returned node: 'N'/'P'/'U')"""
         key = (q, budget, pending)
         if key in self.memo:
             return self.memo[key]
         self.memo[key] = set()        # recursion without consumption yields nothing new
         res = set()
-        for toks, pend, flow in self.run(self.skel[q], budget, pending):
-            res.add((toks, pend, 'next'))
+        for toks, pend, flow, env in self.run(self.skel[q], budget, pending, frozenset()):
+            res.add((toks, pend, dict(env).get('ret', 'U') if flow == 'return' else 'U'))
         self.memo[key] = res
         return res
 
-    def run(self, node, budget, pending):
-        """returns set of (emitted tokens, pending constraint after, flow) ; flow in next/return/break/continue"""
+    @staticmethod
+    def _set(env, k, v):
+        d = dict(env)
+        d[k] = v
+        return frozenset(d.items())
+
+    def _resolve(self, env, kind):
+        d = dict(env)
+        if kind == 'last':
+            return d.get('last', 'U')
+        if isinstance(kind, tuple) and kind[0] == 'var':
+            return d.get(kind[1], 'U')
+        return kind
+
+    def run(self, node, budget, pending, env):
+        """returns set of (emitted tokens, pending constraint after, flow, env) ; flow in next/return/break/continue;
+        env: nullness of Node* locals, of the last grammar-function result ('last') and of the returned value ('ret')"""
         k = node[0]
         if k == 'seq':
-            cur = {((), pending, 'next')}
+            cur = {((), pending, 'next', env)}
             for c in node[1]:
                 nxt = set()
-                for toks, pend, flow in cur:
+                for toks, pend, flow, en in cur:
                     if flow != 'next':
-                        nxt.add((toks, pend, flow))
+                        nxt.add((toks, pend, flow, en))
                         continue
-                    for t2, p2, f2 in self.run(c, budget - len(toks), pend):
-                        nxt.add((toks + t2, p2, f2))
+                    for t2, p2, f2, e2 in self.run(c, budget - len(toks), pend, en):
+                        nxt.add((toks + t2, p2, f2, e2))
                 cur = nxt
                 if not cur:
                     break
@@ -306,62 +398,71 @@ class Skeleton:
                 return set()      # mismatch -> error recorded -> rejected
             if budget < 1:
                 return set()
-            return {((t,), self.ALL, 'next')}
+            return {((t,), self.ALL, 'next', env)}
         if k == 'advance':
             out = set()
             for t in pending:
                 if t != 'T_EOF' and budget >= 1:
-                    out.add(((t,), self.ALL, 'next'))
+                    out.add(((t,), self.ALL, 'next', env))
             return out
         if k == 'error':
             return set()
+        if k == 'bind':
+            return {((), pending, 'next', self._set(env, node[1], self._resolve(env, node[2])))}
         if k == 'return':
-            return {((), pending, 'return')}
+            return {((), pending, 'return', self._set(env, 'ret', self._resolve(env, node[1]) if len(node) > 1 else 'U'))}
         if k in ('break', 'continue'):
-            return {((), pending, k)}
+            return {((), pending, k, env)}
         if k == 'call':
-            return {(t, p, 'next') for t, p, f in self.run_fn(node[1], budget, pending)}
+            return {(t, p, 'next', self._set(env, 'last', r)) for t, p, r in self.run_fn(node[1], budget, pending)}
         if k == 'if':
             out = set()
             pt = pending & node[1]
             pf = pending & node[2]
             if pt:
-                out |= self.run(node[3], budget, pt)
+                out |= self.run(node[3], budget, pt, env)
             if pf:
-                out |= self.run(node[4], budget, pf)
+                out |= self.run(node[4], budget, pf, env)
             return out
+        if k == 'ifnull':
+            v = dict(env).get(node[1], 'U')
+            if v == 'N':
+                return self.run(node[2], budget, pending, env)
+            if v == 'P':
+                return self.run(node[3], budget, pending, env)
+            raise AnalysisBroken('grammar skeleton: a branch tests a node pointer for NULL whose nullness is not determined by the path taken')
         if k == 'switch':
             out = set()
             for sel, body in node[1]:
                 p2 = pending & sel
                 if p2:
-                    for t, p, f in self.run(body, budget, p2):
-                        out.add((t, p, 'next' if f == 'break' else f))
+                    for t, p, f, e2 in self.run(body, budget, p2, env):
+                        out.add((t, p, 'next' if f == 'break' else f, e2))
             return out
         if k == 'loop':
             out = set()
-            work = {((), pending)}
+            work = {((), pending, env)}
             seen = set()
             while work:
-                toks, pend = work.pop()
-                if (toks, pend) in seen:
+                toks, pend, en = work.pop()
+                if (toks, pend, en) in seen:
                     continue
-                seen.add((toks, pend))
+                seen.add((toks, pend, en))
                 if node[1] is not None:
                     pf = pend & node[1][1]
                     if pf:
-                        out.add((toks, pf, 'next'))
+                        out.add((toks, pf, 'next', en))
                     pend = pend & node[1][0]
                     if not pend:
                         continue
-                for t2, p2, f2 in self.run(node[2], budget - len(toks), pend):
+                for t2, p2, f2, e2 in self.run(node[2], budget - len(toks), pend, en):
                     if f2 in ('next', 'continue'):
-                        if len(t2) == 0 and p2 == pend:
+                        if len(t2) == 0 and p2 == pend and e2 == en:
                             continue      # no progress: same state again
-                        work.add((toks + t2, p2))
+                        work.add((toks + t2, p2, e2))
                     elif f2 == 'break':
-                        out.add((toks + t2, p2, 'next'))
+                        out.add((toks + t2, p2, 'next', e2))
                     else:
-                        out.add((toks + t2, p2, f2))
+                        out.add((toks + t2, p2, f2, e2))
             return out
         raise AnalysisBroken('grammar skeleton: unknown node %s' % k)
